@@ -171,12 +171,14 @@ outer:
 	for len(self.CallStack) > 0 {
 		// Check cancelation
 		if i := self.checkCancelation(); i != nil {
+			verifCoreExit(self)
 			self.SignalHandle <- i
 			return
 		}
 
 		// Check for stack overflow
 		if len(self.Stack) > int(self.Limits.StackMaxSize) {
+			verifCoreExit(self)
 			self.SignalHandle <- self.fatalErr(
 				fmt.Sprintf("Runtime stack limit of %d was exceeded by %d", self.Limits.StackMaxSize, len(self.Stack)-int(self.Limits.StackMaxSize)),
 				value.VMFatalExceptionKind(value.Vm_StackOverFlowErrorKind),
@@ -187,6 +189,7 @@ outer:
 
 		// Check for callstack overflows
 		if len(self.CallStack) > int(self.Limits.CallStackMaxSize) {
+			verifCoreExit(self)
 			self.SignalHandle <- self.fatalErr(
 				fmt.Sprintf("Runtime callstack limit of %d was exceeded by %d", self.Limits.CallStackMaxSize, len(self.CallStack)-int(self.Limits.CallStackMaxSize)),
 				value.Vm_StackOverFlowErrorKind,
@@ -299,6 +302,7 @@ outer:
 				}
 			}
 
+			verifStep(self)
 			if i := self.runInstruction(i); i != nil {
 				switch (*i).Kind() {
 				// Only non-fatal exceptions can be handled
@@ -307,6 +311,7 @@ outer:
 
 					// If there is no catch-block, terminate this core
 					if len(self.ExceptionCatchLabels) == 0 {
+						verifCoreExit(self)
 						self.SignalHandle <- self.fatalErr(throwError.Message(), value.Vm_UncaughtThrowKind, throwError.Span)
 						return
 					}
@@ -315,6 +320,7 @@ outer:
 					// If this was not the case, a function would basically "return twice",
 					// as the jump to the error-handling code would not pop the most current call frame.
 					catchLocation := self.ExceptionCatchLabels[len(self.ExceptionCatchLabels)-1]
+					verifCatch(self)
 					if self.callFrame().Function != catchLocation.Function {
 						self.popCallStack()
 					}
@@ -328,6 +334,7 @@ outer:
 							"filename": value.NewValueString(throwError.Span.Filename),
 						}))
 				default:
+					verifCoreExit(self)
 					self.SignalHandle <- i // TODO: add universal stacktrace
 					return
 				}
@@ -335,5 +342,6 @@ outer:
 		}
 	}
 
+	verifCoreExit(self)
 	self.SignalHandle <- nil
 }
